@@ -194,3 +194,275 @@ Theorem trs_desc_walk_md txt md lead gs L tvals svals c c' :
   exists news, cp_tc c' = cp_tc c ++ news /\ Forall2 matches_triple news (grp_triples txt gs tvals svals L) /\
                cp_wt_list c' = [] /\ cp_ws_list c' = [].
 Proof. intros Hmd Ht Hs W S H. rewrite (walk_walk_k txt true md _ c Hmd) in H. exact (trs_desc_walk txt lead gs L tvals svals c c' Ht Hs W S H). Qed.
+
+(* ================================================================== *)
+(* Sec-desc-Twp/Rge: groups  (S block)* T ; the Twp/Rge of a group FOLLOWS its sections.  The chunk
+   parser pops the first Twp/Rge before the walk; each T marker pops the one for the next group. *)
+Definition grp_marks_str (g : grp) : list (nat * mkind) := sec_marks (gsecs g) ++ [(ts g, TWPRGE_START); (te g, TWPRGE_END)].
+
+(* what get_next_twprge leaves as the working Twp/Rge when the list may be exhausted *)
+Definition next_tw (l : list str) : str := match l with t :: _ => t | [] => MC_ERR_TWPRGE end.
+
+(* the Twp/Rge in force for a group is [cur]; its T marker pops the next one (the error Twp/Rge when none is left) *)
+Fixpoint grp_triples_str (txt : str) (gs : list grp) (cur : str) (tvals : list str) (svals : list (list str)) : list (str * list str * str) :=
+  match gs with
+  | g :: gs' =>
+      let k := length (gsecs g) in
+      sec_triples txt cur (gsecs g) (firstn k svals) (ts g) ++ grp_triples_str txt gs' (next_tw tvals) (tl tvals) (skipn k svals)
+  | [] => []
+  end.
+
+Lemma get_next_twprge_fields' c :
+  cp_wt (get_next_twprge c) = Some (next_tw (cp_wt_list c)) /\ cp_wt_list (get_next_twprge c) = tl (cp_wt_list c) /\
+  cp_ws (get_next_twprge c) = cp_ws c /\ cp_ws_list (get_next_twprge c) = cp_ws_list c /\ cp_tc (get_next_twprge c) = cp_tc c.
+Proof.
+  unfold get_next_twprge. cbv zeta.
+  match goal with |- context [if ?b then set_flags ?a1 ?a2 ?a3 ?a4 ?a5 else _] => set (c1 := if b then set_flags a1 a2 a3 a4 a5 else c) end.
+  assert (E : cp_wt_list c1 = cp_wt_list c /\ cp_ws_list c1 = cp_ws_list c /\ cp_ws c1 = cp_ws c /\ cp_tc c1 = cp_tc c).
+  { unfold c1. match goal with |- context [if ?b then _ else _] => destruct b end; repeat split; reflexivity. }
+  destruct E as (E1 & E2 & E3 & E4). rewrite E1. destruct (cp_wt_list c) as [|t more]; cbn [cp_ws cp_ws_list cp_wt cp_wt_list cp_tc next_tw tl]; auto.
+Qed.
+
+Lemma grp_walk_str txt : forall gs tvals svals mores rest c c' t0,
+  length svals = total_secs gs -> cp_wt c = Some t0 -> cp_wt_list c = tvals -> cp_ws_list c = svals ++ mores ->
+  walk_k txt true (flat_map grp_marks_str gs ++ rest) c = Ok c' ->
+  exists c1 news, walk_k txt true rest c1 = Ok c' /\ cp_tc c1 = cp_tc c ++ news /\
+    Forall2 matches_triple news (grp_triples_str txt gs t0 tvals svals) /\ cp_ws_list c1 = mores.
+Proof.
+  induction gs as [|g gs IH]; intros tvals svals mores rest c c' t0 Hs Hw0 Hwt Hws H.
+  - destruct svals; [|discriminate]. exists c, []. cbn in *. rewrite app_nil_r. repeat split; try assumption. constructor.
+  - cbn [total_secs fold_right] in Hs. fold (total_secs gs) in Hs.
+    cbn [flat_map] in H. unfold grp_marks_str at 1 in H. rewrite <- !app_assoc in H.
+    set (k := length (gsecs g)).
+    assert (Hk : length (firstn k svals) = k) by (apply firstn_length_le; unfold k; lia).
+    assert (Hws2 : cp_ws_list c = firstn k svals ++ (skipn k svals ++ mores)) by (rewrite Hws, app_assoc, firstn_skipn; reflexivity).
+    set (rest1 := [(ts g, TWPRGE_START); (te g, TWPRGE_END)] ++ flat_map grp_marks_str gs ++ rest) in *.
+    assert (Hh : head_at rest1 (ts g)) by reflexivity.
+    destruct (sec_walk txt t0 (gsecs g) (firstn k svals) (skipn k svals ++ mores) rest1 (ts g) c c' Hk Hh Hw0 Hws2 H)
+      as (c3 & news1 & Hw3 & Htc3 & HF3 & W3 & S3 & WL3).
+    unfold rest1 in Hw3. cbn [app walk_k] in Hw3. cbv zeta in Hw3.
+    destruct (get_next_twprge_fields' c3) as (F1 & F2 & F3 & F4 & F5). rewrite WL3, Hwt in F1, F2.
+    set (c4 := get_next_twprge c3) in *. cbn [andb mk_eqb negb] in Hw3.
+    match type of Hw3 with walk_k _ _ _ ?cu = _ => set (c5 := cu) in * end.
+    assert (Hs' : length (skipn k svals) = total_secs gs) by (rewrite skipn_length; unfold k; lia).
+    destruct (IH (tl tvals) (skipn k svals) mores rest c5 c' (next_tw tvals) Hs' F1 F2 ltac:(unfold c5; cbn [cp_ws_list]; rewrite F4; exact S3) Hw3)
+      as (c6 & news2 & Hw6 & Htc6 & HF6 & S6).
+    exists c6, (news1 ++ news2). split; [exact Hw6|]. split; [rewrite Htc6; unfold c5; cbn [cp_tc]; rewrite F5, Htc3, <- app_assoc; reflexivity|].
+    split; [|assumption]. cbn [grp_triples_str]. apply Forall2_app; assumption.
+Qed.
+
+Definition s_desc_tr_marks (lead : bool) (gs : list grp) (L : nat) : list (nat * mkind) :=
+  (if lead then [(0, TEXT_START)] else []) ++ flat_map grp_marks_str gs ++ [(L, TEXT_END)].
+
+(* as parse_chunk_with runs it: get_next_twprge first, then the walk *)
+Theorem s_desc_tr_walk txt md lead gs L t0 tvals svals c c' :
+  (forall p k, In (p, k) (s_desc_tr_marks lead gs L) -> md_get p md = Some k) ->
+  length svals = total_secs gs -> cp_wt_list c = t0 :: tvals -> cp_ws_list c = svals ->
+  walk txt true md (map fst (s_desc_tr_marks lead gs L)) (get_next_twprge c) = Ok c' ->
+  exists news, cp_tc c' = cp_tc c ++ news /\ Forall2 matches_triple news (grp_triples_str txt gs t0 tvals svals) /\ cp_ws_list c' = [].
+Proof.
+  intros Hmd Hs Hwt Hws H. rewrite (walk_walk_k txt true md _ _ Hmd) in H. unfold s_desc_tr_marks in H.
+  destruct (get_next_twprge_fields c t0 tvals Hwt) as (F1 & F2 & F3 & F4 & F5). set (c0 := get_next_twprge c) in *.
+  assert (G : forall cc, cp_wt cc = Some t0 -> cp_wt_list cc = tvals -> cp_ws_list cc = svals -> cp_tc cc = cp_tc c ->
+            walk_k txt true (flat_map grp_marks_str gs ++ [(L, TEXT_END)]) cc = Ok c' ->
+            exists news, cp_tc c' = cp_tc c ++ news /\ Forall2 matches_triple news (grp_triples_str txt gs t0 tvals svals) /\ cp_ws_list c' = []).
+  { intros cc W WL SL TC H0.
+    destruct (grp_walk_str txt gs tvals svals [] [(L, TEXT_END)] cc c' t0 Hs W WL ltac:(rewrite app_nil_r; exact SL) H0) as (c1 & news & Hw & Htc & HF & S1).
+    cbn [walk_k] in Hw. injection Hw as <-. exists news. rewrite Htc, TC. auto. }
+  destruct lead; cbn [app] in H; [|exact (G c0 F1 F2 ltac:(congruence) F5 H)].
+  cbn [walk_k] in H. cbv zeta in H. cbn [andb mk_eqb negb] in H.
+  match type of H with walk_k _ _ _ ?cu = _ => exact (G cu F1 F2 ltac:(cbn [cp_ws_list]; congruence) F5 H) end.
+Qed.
+
+(* ================================================================== *)
+(* the two description-first layouts (sd = false): a block becomes a tract when the NEXT marker opens a
+   section; the section value in force was popped at the previous section marker (or before the walk) *)
+Definition next_sec (l : list (list str)) : list str := match l with v :: _ => v | [] => [MC_ERR_SEC] end.
+
+Lemma get_next_sec_fields' c :
+  cp_ws (get_next_sec c) = Some (next_sec (cp_ws_list c)) /\ cp_ws_list (get_next_sec c) = tl (cp_ws_list c) /\
+  cp_wt (get_next_sec c) = cp_wt c /\ cp_wt_list (get_next_sec c) = cp_wt_list c /\ cp_tc (get_next_sec c) = cp_tc c.
+Proof.
+  unfold get_next_sec. cbv zeta.
+  match goal with |- context [if ?b then set_flags ?a1 ?a2 ?a3 ?a4 ?a5 else _] => set (c1 := if b then set_flags a1 a2 a3 a4 a5 else c) end.
+  assert (E : cp_wt_list c1 = cp_wt_list c /\ cp_ws_list c1 = cp_ws_list c /\ cp_wt c1 = cp_wt c /\ cp_tc c1 = cp_tc c).
+  { unfold c1. match goal with |- context [if ?b then _ else _] => destruct b end; repeat split; reflexivity. }
+  destruct E as (E1 & E2 & E3 & E4). rewrite E2. destruct (cp_ws_list c) as [|v more]; cbn [cp_ws cp_ws_list cp_wt cp_wt_list cp_tc next_sec tl]; auto.
+Qed.
+
+Definition text_bearing (k : mkind) : bool := match k with TEXT_START | TWPRGE_END | SEC_END => true | _ => false end.
+Definition head_not_sec (rest : list (nat * mkind)) : Prop := match rest with (_, SEC_START) :: _ => False | _ => True end.
+
+(* blocks BEFORE each section of the list, starting at p0; cur = section value in force, vals = values still to be popped *)
+Fixpoint sec_triples_d (txt : str) (t : str) (p0 : nat) (l : list secm) (cur : list str) (vals : list (list str)) : list (str * list str * str) :=
+  match l with
+  | [] => []
+  | m :: l' => (slice txt p0 (ss m), cur, t) :: sec_triples_d txt t (se m) l' (next_sec vals) (tl vals)
+  end.
+Fixpoint after_secs (n : nat) (cur : list str) (vals : list (list str)) : list str * list (list str) :=
+  match n with O => (cur, vals) | S n' => after_secs n' (next_sec vals) (tl vals) end.
+
+Lemma sec_walk_d txt t : forall l p0 K0 cur vals rest c c',
+  text_bearing K0 = true -> head_not_sec rest -> cp_wt c = Some t -> cp_ws c = Some cur -> cp_ws_list c = vals ->
+  walk_k txt false ((p0, K0) :: sec_marks l ++ rest) c = Ok c' ->
+  exists c1 news, walk_k txt false rest c1 = Ok c' /\ cp_tc c1 = cp_tc c ++ news /\
+    Forall2 matches_triple news (sec_triples_d txt t p0 l cur vals) /\
+    cp_wt c1 = Some t /\ cp_wt_list c1 = cp_wt_list c /\
+    (l <> [] -> cp_ws c1 = Some (fst (after_secs (length l) cur vals)) /\ cp_ws_list c1 = snd (after_secs (length l) cur vals)) /\
+    (l = [] -> cp_ws c1 = cp_ws c /\ cp_ws_list c1 = cp_ws_list c).
+Proof.
+  induction l as [|m l IH]; intros p0 K0 cur vals rest c c' HK Hh Hwt Hws Hwl H.
+  - cbn [sec_marks flat_map app walk_k] in H. cbv zeta in H.
+    assert (Hn : mk_eqb (snd (match rest with (q, k) :: _ => (q, k) | [] => (p0, K0) end)) SEC_START = false).
+    { destruct rest as [|[q k] r]; [destruct K0; try discriminate HK; reflexivity | destruct k; try reflexivity; contradiction]. }
+    destruct K0; try discriminate HK; cbn [andb negb] in H; rewrite Hn in H;
+      (eexists; exists []; split; [exact H|]; cbn [cp_tc cp_wt cp_wt_list cp_ws cp_ws_list]; rewrite app_nil_r;
+       repeat split; try assumption; try reflexivity; try constructor; intros K; contradiction).
+  - cbn [sec_marks flat_map app] in H. fold (sec_marks l) in H. cbn [walk_k] in H. cbv zeta in H. cbn [fst snd] in H.
+    assert (Hprep : exists c2, prep_new_tract c (slice txt p0 (ss m)) = Ok c2 /\
+                               walk_k txt false ((ss m, SEC_START) :: (se m, SEC_END) :: sec_marks l ++ rest) c2 = Ok c').
+    { destruct K0; try discriminate HK; cbn [andb negb mk_eqb] in H;
+        (destruct (prep_new_tract c (slice txt p0 (ss m))) as [c2|e]; cbn [bind] in H; [exists c2; split; [reflexivity | exact H] | discriminate]). }
+    destruct Hprep as (c2 & Ep & H2). destruct (prep_fields c _ c2 cur t Hws Hwt Ep) as (d & Hd & T2 & W2 & WL2 & SL2).
+    cbn [walk_k] in H2. destruct (get_next_sec_fields' c2) as (F1 & F2 & F3 & F4 & F5). rewrite SL2, Hwl in F1, F2. set (c3 := get_next_sec c2) in *.
+    destruct (IH (se m) SEC_END (next_sec vals) (tl vals) rest c3 c' eq_refl Hh ltac:(congruence) F1 F2 H2)
+      as (c4 & news & Hw4 & Htc4 & HF4 & W4 & WL4 & Hne & He).
+    exists c4, (mk_tcomp d cur t false :: news). split; [exact Hw4|]. split; [rewrite Htc4, F5, T2, <- app_assoc; reflexivity|].
+    split; [cbn [sec_triples_d]; constructor; [unfold matches_triple; cbn; auto | exact HF4]|].
+    split; [exact W4|]. split; [congruence|]. split; [|intros K; discriminate K].
+    intros _. cbn [length after_secs]. destruct l as [|m' l'].
+    + destruct (He eq_refl) as [E1 E2]. cbn [length after_secs fst snd]. split; congruence.
+    + exact (Hne ltac:(discriminate)).
+Qed.
+
+(* ---- Twp/Rge-desc-Sec: groups  T (block S)* ---- *)
+Fixpoint grp_triples_trd (txt : str) (gs : list grp) (tvals : list str) (cur : list str) (vals : list (list str)) : list (str * list str * str) :=
+  match gs with
+  | [] => []
+  | g :: gs' =>
+      let k := length (gsecs g) in
+      sec_triples_d txt (next_tw tvals) (te g) (gsecs g) cur vals
+      ++ grp_triples_trd txt gs' (tl tvals) (fst (after_secs k cur vals)) (snd (after_secs k cur vals))
+  end.
+
+Lemma sec_walk_d_state txt t l p0 K0 cur vals rest c c' :
+  text_bearing K0 = true -> head_not_sec rest -> cp_wt c = Some t -> cp_ws c = Some cur -> cp_ws_list c = vals ->
+  walk_k txt false ((p0, K0) :: sec_marks l ++ rest) c = Ok c' ->
+  exists c1 news, walk_k txt false rest c1 = Ok c' /\ cp_tc c1 = cp_tc c ++ news /\
+    Forall2 matches_triple news (sec_triples_d txt t p0 l cur vals) /\
+    cp_wt c1 = Some t /\ cp_wt_list c1 = cp_wt_list c /\
+    cp_ws c1 = Some (fst (after_secs (length l) cur vals)) /\ cp_ws_list c1 = snd (after_secs (length l) cur vals).
+Proof.
+  intros HK Hh Hwt Hws Hwl H.
+  destruct (sec_walk_d txt t l p0 K0 cur vals rest c c' HK Hh Hwt Hws Hwl H) as (c1 & news & Hw & Htc & HF & W & WL & Hne & He).
+  exists c1, news. repeat split; try assumption; destruct l as [|m l']; try (destruct (He eq_refl) as [E1 E2]; cbn [length after_secs fst snd]; congruence);
+    destruct (Hne ltac:(discriminate)) as [E1 E2]; assumption.
+Qed.
+
+Lemma grp_walk_trd txt : forall gs tvals cur vals rest c c',
+  head_not_sec rest -> cp_wt_list c = tvals -> cp_ws c = Some cur -> cp_ws_list c = vals ->
+  walk_k txt false (flat_map grp_marks gs ++ rest) c = Ok c' ->
+  exists c1 news, walk_k txt false rest c1 = Ok c' /\ cp_tc c1 = cp_tc c ++ news /\
+    Forall2 matches_triple news (grp_triples_trd txt gs tvals cur vals).
+Proof.
+  induction gs as [|g gs IH]; intros tvals cur vals rest c c' Hh Hwt Hws Hwl H.
+  - exists c, []. cbn in *. rewrite app_nil_r. repeat split; try assumption. constructor.
+  - cbn [flat_map grp_marks app] in H. rewrite <- app_assoc in H. cbn [walk_k] in H.
+    destruct (get_next_twprge_fields' c) as (F1 & F2 & F3 & F4 & F5). rewrite Hwt in F1, F2. set (c1 := get_next_twprge c) in *.
+    assert (Hh2 : head_not_sec (flat_map grp_marks gs ++ rest)) by (destruct gs as [|g' gs']; [exact Hh | exact I]).
+    destruct (sec_walk_d_state txt (next_tw tvals) (gsecs g) (te g) TWPRGE_END cur vals _ c1 c' eq_refl Hh2 F1 ltac:(congruence) ltac:(congruence) H)
+      as (c2 & news1 & Hw2 & Htc2 & HF2 & W2 & WL2 & S2 & SL2).
+    destruct (IH (tl tvals) _ _ rest c2 c' Hh ltac:(congruence) S2 SL2 Hw2) as (c3 & news2 & Hw3 & Htc3 & HF3).
+    exists c3, (news1 ++ news2). split; [exact Hw3|]. split; [rewrite Htc3, Htc2, F5, <- app_assoc; reflexivity|].
+    cbn [grp_triples_trd]. apply Forall2_app; assumption.
+Qed.
+
+Lemma lead_unused txt p K rest c c' :
+  text_bearing K = true -> head_not_sec rest -> walk_k txt false ((p, K) :: rest) c = Ok c' ->
+  exists cu, walk_k txt false rest cu = Ok c' /\ cp_tc cu = cp_tc c /\ cp_wt cu = cp_wt c /\ cp_wt_list cu = cp_wt_list c /\
+             cp_ws cu = cp_ws c /\ cp_ws_list cu = cp_ws_list c.
+Proof.
+  intros HK Hh H. cbn [walk_k] in H. cbv zeta in H.
+  assert (Hn : mk_eqb (snd (match rest with (q, k) :: _ => (q, k) | [] => (p, K) end)) SEC_START = false).
+  { destruct rest as [|[q k] r]; [destruct K; try discriminate HK; reflexivity | destruct k; try reflexivity; contradiction]. }
+  destruct K; try discriminate HK; cbn [andb negb] in H; rewrite Hn in H; (eexists; split; [exact H | repeat split]).
+Qed.
+
+Definition tr_desc_s_marks (lead : bool) (gs : list grp) (L : nat) : list (nat * mkind) :=
+  (if lead then [(0, TEXT_START)] else []) ++ flat_map grp_marks gs ++ [(L, TEXT_END)].
+
+(* as parse_chunk_with runs it: get_next_sec first, then the walk; a leading block must be followed by a Twp/Rge *)
+Theorem tr_desc_s_walk txt md lead gs L tvals svals c c' :
+  (forall p k, In (p, k) (tr_desc_s_marks lead gs L) -> md_get p md = Some k) -> (lead = true -> gs <> []) ->
+  cp_wt_list c = tvals -> cp_ws_list c = svals ->
+  walk txt false md (map fst (tr_desc_s_marks lead gs L)) (get_next_sec c) = Ok c' ->
+  exists news, cp_tc c' = cp_tc c ++ news /\ Forall2 matches_triple news (grp_triples_trd txt gs tvals (next_sec svals) (tl svals)).
+Proof.
+  intros Hmd Hlead Hwt Hws H. rewrite (walk_walk_k txt false md _ _ Hmd) in H. unfold tr_desc_s_marks in H.
+  destruct (get_next_sec_fields' c) as (F1 & F2 & F3 & F4 & F5). rewrite Hws in F1, F2. set (c0 := get_next_sec c) in *.
+  assert (G : forall cc, cp_wt_list cc = tvals -> cp_ws cc = Some (next_sec svals) -> cp_ws_list cc = tl svals -> cp_tc cc = cp_tc c ->
+            walk_k txt false (flat_map grp_marks gs ++ [(L, TEXT_END)]) cc = Ok c' ->
+            exists news, cp_tc c' = cp_tc c ++ news /\ Forall2 matches_triple news (grp_triples_trd txt gs tvals (next_sec svals) (tl svals))).
+  { intros cc WL S SL TC H0.
+    destruct (grp_walk_trd txt gs tvals _ _ [(L, TEXT_END)] cc c' I WL S SL H0) as (c1 & news & Hw & Htc & HF).
+    cbn [walk_k] in Hw. injection Hw as <-. exists news. rewrite Htc, TC. auto. }
+  destruct lead; cbn [app] in H; [|exact (G c0 ltac:(congruence) F1 F2 F5 H)].
+  assert (Hh : head_not_sec (flat_map grp_marks gs ++ [(L, TEXT_END)])) by (destruct gs as [|g gs']; exact I).
+  destruct (lead_unused txt 0 TEXT_START _ c0 c' eq_refl Hh H) as (cu & Hw & TC & W & WL & S & SL).
+  exact (G cu ltac:(congruence) ltac:(congruence) ltac:(congruence) ltac:(congruence) Hw).
+Qed.
+
+(* ---- desc-Sec-Twp/Rge: groups  (block S)* T ; the text-bearing marker before a group is the start of the
+   text or the end of the previous group's Twp/Rge ---- *)
+Fixpoint dstr_marks (p0 : nat) (K0 : mkind) (gs : list grp) (tail : list (nat * mkind)) : list (nat * mkind) :=
+  (p0, K0) :: match gs with
+              | [] => tail
+              | g :: gs' => sec_marks (gsecs g) ++ (ts g, TWPRGE_START) :: dstr_marks (te g) TWPRGE_END gs' tail
+              end.
+
+Fixpoint dstr_triples (txt : str) (gs : list grp) (p0 : nat) (tcur : str) (tvals : list str) (cur : list str) (vals : list (list str))
+  : list (str * list str * str) :=
+  match gs with
+  | [] => []
+  | g :: gs' =>
+      let k := length (gsecs g) in
+      sec_triples_d txt tcur p0 (gsecs g) cur vals
+      ++ dstr_triples txt gs' (te g) (next_tw tvals) (tl tvals) (fst (after_secs k cur vals)) (snd (after_secs k cur vals))
+  end.
+
+Lemma grp_walk_dstr txt tail : (tail = [] \/ exists L, tail = [(L, TEXT_END)]) ->
+  forall gs p0 K0 tcur tvals cur vals c c',
+  text_bearing K0 = true -> cp_wt c = Some tcur -> cp_wt_list c = tvals -> cp_ws c = Some cur -> cp_ws_list c = vals ->
+  walk_k txt false (dstr_marks p0 K0 gs tail) c = Ok c' ->
+  exists news, cp_tc c' = cp_tc c ++ news /\ Forall2 matches_triple news (dstr_triples txt gs p0 tcur tvals cur vals).
+Proof.
+  intros Htail. induction gs as [|g gs IH]; intros p0 K0 tcur tvals cur vals c c' HK Hw Hwl Hs Hsl H.
+  - cbn [dstr_marks] in H. assert (Hh : head_not_sec tail) by (destruct Htail as [->|(L & ->)]; exact I).
+    change ((p0, K0) :: tail) with ((p0, K0) :: sec_marks [] ++ tail) in H.
+    destruct (sec_walk_d_state txt tcur [] p0 K0 cur vals tail c c' HK Hh Hw Hs Hsl H) as (c1 & news & Hw1 & Htc & HF & _).
+    inversion HF; subst. exists []. split; [|constructor].
+    destruct Htail as [->|(L & ->)]; cbn [walk_k] in Hw1; injection Hw1 as <-; rewrite Htc; reflexivity.
+  - cbn [dstr_marks] in H.
+    destruct (sec_walk_d_state txt tcur (gsecs g) p0 K0 cur vals ((ts g, TWPRGE_START) :: dstr_marks (te g) TWPRGE_END gs tail) c c' HK I Hw Hs Hsl H) as (c1 & news1 & Hw1 & Htc1 & HF1 & W1 & WL1 & S1 & SL1).
+    cbn [walk_k] in Hw1. destruct (get_next_twprge_fields' c1) as (F1 & F2 & F3 & F4 & F5). rewrite WL1, Hwl in F1, F2. set (c2 := get_next_twprge c1) in *.
+    destruct (IH (te g) TWPRGE_END (next_tw tvals) (tl tvals) (fst (after_secs (length (gsecs g)) cur vals)) (snd (after_secs (length (gsecs g)) cur vals)) c2 c' eq_refl F1 F2
+                 ltac:(rewrite F3; exact S1) ltac:(rewrite F4; exact SL1) Hw1) as (news2 & Htc2 & HF2).
+    exists (news1 ++ news2). split; [rewrite Htc2, F5, Htc1, <- app_assoc; reflexivity|]. cbn [dstr_triples]. apply Forall2_app; assumption.
+Qed.
+
+(* as parse_chunk_with runs it: get_next_sec, get_next_twprge, then the walk from the start of the text *)
+Theorem desc_str_walk txt md gs tail tvals svals c c' :
+  (tail = [] \/ exists L, tail = [(L, TEXT_END)]) ->
+  (forall p k, In (p, k) (dstr_marks 0 TEXT_START gs tail) -> md_get p md = Some k) ->
+  cp_wt_list c = tvals -> cp_ws_list c = svals ->
+  walk txt false md (map fst (dstr_marks 0 TEXT_START gs tail)) (get_next_twprge (get_next_sec c)) = Ok c' ->
+  exists news, cp_tc c' = cp_tc c ++ news /\
+    Forall2 matches_triple news (dstr_triples txt gs 0 (next_tw tvals) (tl tvals) (next_sec svals) (tl svals)).
+Proof.
+  intros Htail Hmd Hwt Hws H. rewrite (walk_walk_k txt false md _ _ Hmd) in H.
+  destruct (get_next_sec_fields' c) as (F1 & F2 & F3 & F4 & F5). rewrite Hws in F1, F2. set (c0 := get_next_sec c) in *.
+  destruct (get_next_twprge_fields' c0) as (G1 & G2 & G3 & G4 & G5). rewrite F4, Hwt in G1, G2. set (c1 := get_next_twprge c0) in *.
+  destruct (grp_walk_dstr txt tail Htail gs 0 TEXT_START (next_tw tvals) (tl tvals) (next_sec svals) (tl svals) c1 c' eq_refl G1 G2
+             ltac:(rewrite G3; exact F1) ltac:(rewrite G4; exact F2) H) as (news & Htc & HF).
+  exists news. split; [rewrite Htc, G5, F5; reflexivity | exact HF].
+Qed.
